@@ -15,6 +15,7 @@ Proof. exact sb_failed_open_detached_inplace. Qed.
 
 Theorem C17_open_detached : forall mbuf mac c n k,
   fst (open_detached_c mbuf mac c n k) = Err ->
+  snd (open_detached_c mbuf mac c n k) = mbuf \/
   snd (open_detached_c mbuf mac c n k) = zeros (length c) ++ skipn (length c) mbuf.
 Proof. exact sb_failed_open_detached. Qed.
 
